@@ -137,6 +137,7 @@ func c04Main(args []string) {
 	replayF := fs.String("replay", "", "")
 	cliDir := fs.String("clisamples", "", "directory to write faulted texts for the CLI half")
 	emitF := fs.String("emit", "", "replay: also write the faulted text to this file")
+	budget := fs.Int("budget", 0, "wall-clock budget in seconds for this shard (0 = none); documents are taken smallest first")
 	fs.Parse(args)
 	c, err := loadCorpus(*corpusF)
 	if err != nil {
@@ -215,8 +216,14 @@ func c04Main(args []string) {
 		docs = pick
 	}
 	cliEmitted := 0
+	tStart := time.Now()
+	skipped := 0
 	for idx, doc := range docs {
 		if idx%*nshard != *shard {
+			continue
+		}
+		if *budget > 0 && time.Since(tStart) > time.Duration(*budget)*time.Second {
+			skipped++
 			continue
 		}
 		pr := c.Profiles[doc.p]
@@ -281,7 +288,7 @@ func c04Main(args []string) {
 
 		fast := c04Entries[:1]
 		// torn writes: every crash point (exhaustive per document), all entry points on a sample
-		full := len(dtxt) <= 20000 || (*tier == "thorough" && len(dtxt) <= 60000)
+		full := len(dtxt) <= 20000 || (*tier == "thorough" && len(dtxt) <= 30000)
 		sum.Exhaustive = full
 		step := 1
 		if !full {
@@ -299,7 +306,7 @@ func c04Main(args []string) {
 		// flipped stored bits, biased to structural characters
 		nflip := 120
 		if *tier == "thorough" {
-			nflip = 1500
+			nflip = 500
 		}
 		var structural []int
 		for i := 0; i < len(dtxt); i++ {
@@ -341,7 +348,7 @@ func c04Main(args []string) {
 		// structural corruption JSON-LD must reject
 		nk := 2
 		if *tier == "thorough" {
-			nk = 6
+			nk = 3
 		}
 		for _, op := range ldOps {
 			for j := 0; j < nk; j++ {
@@ -353,5 +360,5 @@ func c04Main(args []string) {
 		w.WriteByte('\n')
 		w.Flush()
 	}
-	fmt.Fprintf(w, "{\"shard_done\":%d,\"at\":%d}\n", *shard, time.Now().Unix())
+	fmt.Fprintf(w, "{\"shard_done\":%d,\"at\":%d,\"documents_skipped_for_budget\":%d}\n", *shard, time.Now().Unix(), skipped)
 }
